@@ -173,6 +173,16 @@ class Crate:
             ty = base_type(inner).split("::")[-1]
             c = self.impl_index.get((ty, None, rest))
             return c[0] if c and len(c) == 1 else None
+        m_impl = re.match(r"^(.*?)<impl ([^>]+)>::(\w+)$", f)
+        if m_impl:
+            # `module::<impl path::Type>::method` (inherent impl written in another module than the type)
+            ty = base_type(m_impl.group(2)).split("::")[-1]
+            c = self.impl_index.get((ty, None, m_impl.group(3)))
+            if c and len(c) > 1:
+                pre = m_impl.group(1).rstrip(":")
+                c = [b for b in c if b.name.split("<impl at")[0].rstrip(":").endswith(pre)]
+            if c and len(c) == 1:
+                return c[0]
         g = strip_generics(f)
         if g in self.bodies:
             return self.bodies[g]
